@@ -174,6 +174,18 @@ def run_case(case):
     out = {"id": case["id"], "ops": []}
     try:
         T._data_path = tmp
+        # history: a caller asked for the grids of every tile before and overwrote the arrays it was handed (they are the
+        # caller's own: sorting them, shifting longitudes to 0..360 in place is ordinary use) -- every later answer must
+        # be computed from the tile table, not from an array somebody else holds
+        for name_ in [t_[0] for t_ in SRTM30._tiles]:
+            try:
+                g_ = SRTM30.get_grids(name_)
+                for a_ in g_:
+                    a_ = numpy.asarray(a_)
+                    if a_.flags.writeable:
+                        a_[...] = a_[::-1].copy() % 360.0 + 0.25
+            except Exception:  # noqa
+                pass
         for n in case.get("warm", []):
             with open(os.path.join(tmp, n.upper() + ".DEM"), "wb") as f:
                 f.write(b"synthetic")
